@@ -316,10 +316,14 @@ package types
 //@   // sequence ids below 2^32-1: `id+1` in the ordering check wraps silently at the top of the range (no panic in Go, but the
 //@   // engine treats machine arithmetic as mathematical and demands the range)
 //@   requires forall i: int :: {msg.Minters[i]} 0 <= i && i < len(msg.Minters) && msg.Minters[i] != nil ==> msg.Minters[i].SequenceId < maxUint32
+//@   // validation sorts the message's own minter list in place
+//@   modifies elems(msg.Minters)
 //@   prop C20
 //@ func (msg MsgUpdateParams) ValidateBasic() (r0)
 //@   requires msg != nil
-//@   prop C20x
+//@   panic_requires seqIdsInRange(msg.Minters)
+//@   modifies elems(msg.Minters)
+//@   prop C20
 
 //@ // ---- declared effects (checked per call instruction by the effect checker; anything not listed is effect-free) ----
 //@ effects DefaultGenesis nondet.time
@@ -329,11 +333,17 @@ package types
 //@ // the assumed contract of Validate below). paramsContainSeq(s, id): some minter of s has sequence id `id`.
 //@ spec func minterParamsValid(s int) bool
 //@ spec func paramsContainSeq(s int, id int) bool
+//@ // sequence ids below the uint32 maximum: the successor computed by the list validation is then exact (machine arithmetic
+//@ // is otherwise treated as mathematical)
+//@ pred seqIdsInRange(ms) = forall i: int :: {ms[i]} 0 <= i && i < len(ms) && ms[i] != nil ==> ms[i].SequenceId < maxUint32
 //@ func (params Params) Validate() (err)
 //@   trusted
+//@   // (the abstract equivalence is assumed; the body is still under the no-panic check, with the precondition of the list validation)
+//@   panic_requires seqIdsInRange(params.Minters)
 //@   modifies elems(params.Minters)
 //@   ensures (err == nil) == minterParamsValid(snap(params))
 //@   ensures forall id :: {paramsContainSeq(snap(params), id)} paramsContainSeq(snap(params), id) == old(paramsContainSeq(snap(params), id))
+//@   prop C20
 //@ func (params Params) ContainsMinter(sequenceId) (res)
 //@   trusted
 //@   ensures res == paramsContainSeq(snap(params), sequenceId)
